@@ -188,6 +188,7 @@ class XyeEngine(Engine):
             "load_coord": rng.choice([None, None, "loaded_coord"]),
             "fresh_process": rng.random() < 0.3,
             "layout": rng.choice(["plain", "plain", "slice", "strided"]),
+            "units_as": rng.choice(["str", "Unit"]),
             "faults": {"mode": "none"},
         }
         f = rng.random()
@@ -329,6 +330,11 @@ class XyeEngine(Engine):
 
         kw = {"dim": scn["dim"], "unit": scn["unit"],
               "coord_unit": scn["coords"][self._selected(scn)]["unit"]}
+        if scn.get("units_as") == "Unit":
+            # units may be given as str, sc.Unit or None
+            import scipp as sc
+
+            kw = {k: (sc.Unit(v) if k != "dim" and v is not None else v) for k, v in kw.items()}
         if scn["load_coord"]:
             kw["coord"] = scn["load_coord"]
         if scn["sink"] == "fileobj" and isinstance(source, str):
